@@ -437,7 +437,8 @@ var c20Types = []string{"str", "arr", "int", "float", "bool"}
 func c20Recv(rt *rapid.T, typ string) V {
 	switch typ {
 	case "str":
-		return refint.StrV(rapid.SampledFrom([]string{"", "abc", "héllo", "x y"}).Draw(rt, "srecv"))
+		// (strings holding markup or entity text are passed as variables only: a literal would be escaped first)
+		return refint.StrV(rapid.SampledFrom([]string{"", "abc", "héllo", "x y", "a &lt; b", "Tom &amp; Jerry", "&copy; &#65;&#x42; &amp", "<b>&</b>", "q\"uo'te"}).Draw(rt, "srecv"))
 	case "arr":
 		return rapid.SampledFrom([]V{refint.ArrV(nil), refint.ArrV([]V{refint.IntV(1), refint.StrV("a")}), refint.ArrV([]V{refint.ArrV([]V{refint.IntV(2)}), refint.ObjV(map[string]V{"k": refint.NilV()})})}).Draw(rt, "arecv")
 	case "int":
@@ -450,7 +451,7 @@ func c20Recv(rt *rapid.T, typ string) V {
 
 func c20Arg(rt *rapid.T) V {
 	return rapid.SampledFrom([]V{
-		refint.IntV(5), refint.IntV(-1), refint.FloatV(1.5), refint.StrV("arg"), refint.StrV(""), refint.BoolV(true), refint.NilV(),
+		refint.IntV(5), refint.IntV(-1), refint.FloatV(1.5), refint.StrV("arg"), refint.StrV(""), refint.BoolV(true), refint.NilV(), refint.StrV("x &amp; &lt;y&gt;"),
 		refint.ArrV(nil), refint.ArrV([]V{refint.IntV(1), refint.ArrV([]V{refint.StrV("in")})}),
 		refint.ObjV(map[string]V{"a": refint.IntV(1), "b": refint.ArrV([]V{refint.NilV(), refint.ObjV(map[string]V{"c": refint.FloatV(0.5)})})}), refint.ObjV(nil),
 	}).Draw(rt, "arg")
@@ -465,14 +466,22 @@ func genRegOp(rt *rapid.T) regOp {
 	case 3:
 		return regOp{Kind: "load"}
 	}
-	recv := toModelJSON(c20Recv(rt, typ))
+	recvV := c20Recv(rt, typ)
+	markup := recvV.K == refint.KStr && strings.ContainsAny(recvV.S, "&<>'\"\\")
+	recv := toModelJSON(recvV)
 	n := rapid.IntRange(0, 3).Draw(rt, "nArgs")
 	args := make([]modelJSON, n)
 	for i := range args {
-		args[i] = toModelJSON(c20Arg(rt))
+		av := c20Arg(rt)
+		markup = markup || av.K == refint.KStr && strings.ContainsAny(av.S, "&<>'\"\\")
+		args[i] = toModelJSON(av)
 	}
-	return regOp{Kind: "call", Name: name, Recv: &recv, Args: args, ViaVar: rapid.Bool().Draw(rt, "viaVar"), ViaTpl: rapid.IntRange(0, 2).Draw(rt, "viaTpl") == 0,
+	op := regOp{Kind: "call", Name: name, Recv: &recv, Args: args, ViaVar: rapid.Bool().Draw(rt, "viaVar"), ViaTpl: rapid.IntRange(0, 2).Draw(rt, "viaTpl") == 0,
 		Place: rapid.SampledFrom([]string{"page", "component", "slot", "insert"}).Draw(rt, "place")}
+	if markup {
+		op.ViaVar = true
+	}
+	return op
 }
 
 func c20NonTrivial(ops []regOp) bool {
